@@ -12,6 +12,8 @@ of the statement):
   enabled-roundtrip        the `enabled` member of every form after reading == before writing
   roundtrip-completes      an InputFile the library accepted can be written and read back
   json-text-standard       the text on disk is plain JSON (no NaN / Infinity tokens)
+  set-value-kept           a value accepted by set_data_value / the data setter is the value
+                           InputFile.data holds (the parameter value that is to be written)
   promote-same-entity      promote() turns an identifier into the entity with that uid of
                            the given workspace
   promote-demote-identity  demote(promote(ids)) == ids
@@ -134,9 +136,23 @@ def spec_of(var, name, opt=None, extra=None):
     return {"name": name, "t": var["t"], "kw": kw, "m": m}
 
 
-def mk_case(var_specs, fx="small", geoh5="ws", parent=False, pre=None, mid=None, base=None, c2=True):
+CONFIGS = [  # (validate, validation_options tag); the first one is the default of every other family
+    (True, None),
+    (True, "ignore"),
+    (True, "ue-true"),
+    (True, "ue-false"),
+    (False, None),
+    (False, "ignore"),
+    (False, "ue-true"),
+    (False, "ue-false"),
+]
+
+
+def mk_case(var_specs, fx="small", geoh5="ws", parent=False, pre=None, mid=None, base=None, c2=True, cfg=None):
     forms = ([dict(PARENT)] if parent else []) + var_specs
     case = {"fx": fx, "geoh5": geoh5, "forms": forms}
+    if cfg is not None and cfg != CONFIGS[0]:
+        case["cfg"] = {"validate": cfg[0], "vo": cfg[1]}
     if not c2:
         case["c2"] = False  # stop after the first write/read cycle
     if pre:
@@ -227,6 +243,21 @@ def enumerate_cases(quick: bool):
                 cases.append(mk_case([spec_of(var, "x", opt)], fx=var["fx"], parent=var["parent"], mid=[["set", "x", alt]]))
                 if opt is not None:
                     cases.append(mk_case([spec_of(var, "x", opt)], fx=var["fx"], parent=var["parent"], pre=[["set", "x", None]], mid=[["set", "x", alt]]))
+    # F7: configurations of the public API: validate x validation_options, every form kind,
+    # value in the ui.json and both setter entry points, incl. a value given to a disabled
+    # optional parameter and None given to an enabled one
+    for cfg in CONFIGS[1:]:
+        for var in first_of_template(vs):
+            alts = var["alts"][:1] if quick else var["alts"][:3]
+            for opt in OPTS:
+                if not quick or (cfg[1] is None):
+                    cases.append(mk_case([spec_of(var, "x", opt)], fx=var["fx"], parent=var["parent"], cfg=cfg, c2=not quick))
+                for op in ("set", "data"):
+                    for alt in alts + ([None] if opt != "disabled" or not quick else []):
+                        cases.append(mk_case([spec_of(var, "x", opt)], fx=var["fx"], parent=var["parent"], pre=[[op, "x", alt]], cfg=cfg, c2=not quick))
+                if not quick:
+                    for alt in alts[:1] + [None]:
+                        cases.append(mk_case([spec_of(var, "x", opt)], fx=var["fx"], parent=var["parent"], mid=[["set", "x", alt]], cfg=cfg))
     # F4: dependencies: driver (bool / optional float) x dependencyType x dependent form
     drivers = [
         {"name": "drv", "t": "bool_parameter", "kw": {"value": False}, "m": {}},
@@ -355,7 +386,7 @@ def run(ctx):
             states.add(core.digest(res["s0"]))
         if res.get("s2") is not None:
             states.add(core.digest(res["s2"]))
-        if not oc.startswith("refused-construct") and not oc.startswith("refused-op") and oc != "excluded-nan":
+        if not oc.startswith("refused-construct") and not oc.startswith("refused-op") and not oc.startswith("excluded"):
             judged += 1
             if oc == "roundtrip" and len(ctx.samples) < 5 and len(case.get("forms", [])) >= 1 and judged % 97 == 0:
                 ctx.sample({"case": case, "before": res["s0"], "after_second_cycle": res.get("s2")})
@@ -384,6 +415,7 @@ def run(ctx):
             "dependency": ["bool false/true", "optional float enabled/disabled", "dependencyType enabled/disabled/absent", "enabled member absent/true/false"],
             "entries": ["value in ui_json", "set_data_value", "data setter", "set_data_value on the re-read file"],
             "geoh5": ["Workspace object", "path string", "pathlib.Path"],
+            "configurations": ["validate True/False x validation_options None / {'ignore_list': ()} / {'update_enabled': True} / {'update_enabled': False}, same configuration for the reader (family F7: one representative per template / mode x optional state x entry point)"],
             "floats": [vtag(x) for x in FLOATS],
             "ints": [str(x) for x in INTS],
             "strings": [vtag(x) for x in STRINGS],
@@ -391,7 +423,10 @@ def run(ctx):
     )
     ctx.assumptions += [
         "NaN is not a ui.json value (documented exception): cases whose data contain NaN are excluded",
-        "domain = inputs the library accepts with its default validation (validate=True); a refusal at construction or by set_data_value / the data setter is a legitimate outcome and is not judged",
+        "domain = inputs the library accepts in the configuration at hand (validate True/False, validation_options; the reader gets the same configuration); a refusal at construction or by set_data_value / the data setter is a legitimate outcome and is not judged; with validate=False nothing is refused and only the statement's clauses are judged",
+        "update_enabled=False hands the enabled flags over to the caller: a non-required parameter that holds a value but is flagged disabled (or holds None but is flagged enabled) at the moment of writing is outside the domain and not compared",
+        "None is the value kind of disabled parameters: None given (with validate=False, where nothing is refused) to a parameter that has no optional / group / dependency / enabled member, i.e. that cannot be disabled, is outside the domain (validate=True refuses it)",
+        "set-value-kept: a value accepted by set_data_value / the data setter is the parameter value of the input file (what must be written and read back); identifiers of no workspace entity are excluded",
         "in-memory workspaces have no path and are outside the statement ('workspace paths re-opened as workspaces')",
         "compared: InputFile.data (numbers by value, strings, booleans, None, lists element-wise, entities by class + uid + name, workspaces by resolved file path) and the `enabled` member of every form (absent == true, the documented default); other members (vmin, tooltip, choiceList, ...) are not compared: the statement is silent about them",
         "identifier -> entity equivalence: for object / group / data / data-or-value forms a uuid (or uuid string) held before writing equals the entity with that uid after reading ('identifiers promoted to the same workspace entities'); for geoh5 / workspace a path equals the Workspace re-opened on that path; for string-valued parameters (string, choice, file, drillhole-group data, title, ...) no such equivalence: a string must come back as the same string",
